@@ -751,7 +751,8 @@ func c16HasTypes(m *c16Module) bool {
 }
 
 // option sets the generator is run with (the first is the default, the second is tars/protocol/res/Makefile's)
-var c16FlagSets = [][]string{nil, {"-without-trace=true", "-add-servant=false"}, {"-json-omitempty"}, nil, {"-dispatch-reporter"}}
+var c16FlagSets = [][]string{nil, {"-without-trace=true", "-add-servant=false"}, {"-json-omitempty"}, nil, {"-dispatch-reporter"},
+	{"-dispatch-reporter", "-without-trace=true", "-add-servant=false"}}
 
 // ---------- (c) the protocol bindings ----------
 func c16NormGo(src []byte) string {
